@@ -105,6 +105,7 @@ func c07Classes(small bool) map[string][]c07Sc {
 	}
 	for _, s := range c07Sizes(0, 1, small) {
 		w, n := s.w, s.n
+		ew := (&c07Sc{Entry: "MapReduce", Workers: w}).effWorkers()
 		for _, e := range c07AllEntries {
 			for end := 0; end <= 2; end++ {
 				if end > 0 && e != "MapReduce" && e != "MapReduceChan" {
@@ -172,7 +173,6 @@ func c07Classes(small bool) map[string][]c07Sc {
 				}
 			}
 		}
-		ew := (&c07Sc{Entry: "MapReduce", Workers: w}).effWorkers()
 		if n >= 2 && ew >= 2 {
 			for _, e := range c07MREntries {
 				add(c07Sc{Class: "first-cancel-wins", Entry: e, N: n, Workers: w, GenPanicAt: -1,
@@ -253,6 +253,33 @@ func c07Classes(small bool) map[string][]c07Sc {
 				Items: c07Items(n, nil), Red: c07Red{Early: 1, Stop: -1, Act: "panic", ActEarly: true}, Expect: []string{"value", "panic:r"}})
 			add(c07Sc{Class: "reducer-early-output+late-reducer-panic", Entry: e, N: n, Workers: w, GenPanicAt: -1,
 				Items: c07Items(n, nil), Red: c07Red{Early: 1, Stop: -1, Act: "panic"}, Expect: []string{"value", "panic:r"}})
+			// --- output taken AND generator returned, then the panic: the call is necessarily still in progress
+			// (a goroutine of the call is running, the generator has returned, nothing cancelled), so the panic
+			// must be re-raised; (value, nil) would mean the panic was dropped or the call returned over a running goroutine.
+			if n >= 1 {
+				as := []int{n - 1}
+				if n > 1 && n <= ew {
+					as = append(as, 0)
+				}
+				for _, a := range as {
+					a := a
+					add(c07Sc{Class: "output-taken+generator-returned+late-mapper-panic", Entry: e, N: n, Workers: w, GenPanicAt: -1,
+						Items: c07Items(n, func(i int, it *c07It) {
+							if i == a {
+								it.Act, it.Wait, it.At = "panic", "rw,gr", a%2
+							}
+						}), Red: c07Red{Early: 1, Stop: -1},
+						Expect: []string{"value", fmt.Sprintf("panic:%d", a)}, ExpectOrdered: []string{fmt.Sprintf("panic:%d", a)}})
+				}
+			}
+			add(c07Sc{Class: "output-taken+generator-returned+late-reducer-panic", Entry: e, N: n, Workers: w, GenPanicAt: -1,
+				Items: c07Items(n, nil), Red: c07Red{Early: 1, Stop: -1, Act: "panic", Wait: "gr"},
+				Expect: []string{"value", "panic:r"}, ExpectOrdered: []string{"panic:r"}})
+			if n <= ew {
+				add(c07Sc{Class: "output-taken+generator-returned+late-reducer-panic", Entry: e, N: n, Workers: w, GenPanicAt: -1,
+					Items: c07Items(n, nil), Red: c07Red{Early: 1, Stop: -1, Act: "panic", ActEarly: true, Wait: "gr"},
+					Expect: []string{"value", "panic:r"}, ExpectOrdered: []string{"panic:r"}})
+			}
 		}
 		for _, k := range c07Picks(n + 1) {
 			add(c07Sc{Class: "reducer-early-output+late-generator-panic", Entry: "MapReduce", N: n, Workers: w, GenPanicAt: k, GenWait: "rw",
@@ -348,7 +375,7 @@ func TestVerifC07Gated(t *testing.T) {
 func TestVerifC07LateMapperPanicAfterOutput(t *testing.T) {
 	m := vk.New(t, "C07", "reducer writes its output first (Write returned = caller took it), then a mapper panics: either the value or the re-raised panic is accepted; the call must return and leave no goroutine")
 	defer m.Done()
-	c07RunClasses(t, m, 1000000, false, c07N(1, 20, 3), "reducer-early-output+late-mapper-panic")
+	c07RunClasses(t, m, 1000000, false, c07N(1, 20, 3), "reducer-early-output+late-mapper-panic", "output-taken+generator-returned+late-mapper-panic")
 }
 
 func TestVerifC07LateGeneratorPanicAfterOutput(t *testing.T) {
@@ -360,7 +387,7 @@ func TestVerifC07LateGeneratorPanicAfterOutput(t *testing.T) {
 func TestVerifC07LateReducerPanicAfterOutput(t *testing.T) {
 	m := vk.New(t, "C07", "reducer writes its output, then panics: value or re-raised panic accepted; the call must return and leave no goroutine")
 	defer m.Done()
-	c07RunClasses(t, m, 3000000, false, c07N(1, 20, 3), "reducer-early-output+late-reducer-panic")
+	c07RunClasses(t, m, 3000000, false, c07N(1, 20, 3), "reducer-early-output+late-reducer-panic", "output-taken+generator-returned+late-reducer-panic")
 }
 
 func TestVerifC07LatePanicAfterCancel(t *testing.T) {
